@@ -5,8 +5,8 @@
 #![allow(clippy::too_many_arguments)]
 use soroban_sdk::{
     contract, contractimpl, panic_with_error, symbol_short,
-    testutils::{Address as _, Ledger as _, MockAuth, MockAuthInvoke},
-    Address, Env, IntoVal, Map, MuxedAddress, String, Symbol, TryFromVal, Val, Vec,
+    testutils::{Address as _, Ledger as _, MockAuth, MockAuthInvoke, MuxedAddress as _},
+    xdr, Address, Env, IntoVal, Map, MuxedAddress, String, Symbol, TryFromVal, Val, Vec,
 };
 use stellar_contract_utils::pausable::{self, Pausable};
 use stellar_tokens::{
@@ -27,6 +27,9 @@ impl MockIdv {
         e.storage().instance().set(&symbol_short!("log"), &log);
         let ver: Vec<Address> = e.storage().instance().get(&symbol_short!("ver")).unwrap_or(Vec::new(e));
         if !ver.contains(&account) {
+            // HOW a verifier signals "not verified" is its own business: a contract error or a plain trap
+            let fl: u32 = e.storage().instance().get(&symbol_short!("fl")).unwrap_or(0);
+            if fl % 2 == 1 { panic!("identity not verified") }
             panic_with_error!(e, RWAError::IdentityVerificationFailed)
         }
     }
@@ -36,7 +39,11 @@ impl MockIdv {
         log.push_back((1, old_account.clone()));
         e.storage().instance().set(&symbol_short!("log"), &log);
         let rec: Map<Address, Address> = e.storage().instance().get(&symbol_short!("rec")).unwrap_or(Map::new(e));
-        rec.get(old_account)
+        let fl: u32 = e.storage().instance().get(&symbol_short!("fl")).unwrap_or(0);
+        let r = rec.get(old_account);
+        // "no recovery target" reported by trapping instead of returning None
+        if r.is_none() && fl >= 2 { panic_with_error!(e, RWAError::IdentityVerificationFailed) }
+        r
     }
 }
 
@@ -52,16 +59,30 @@ fn cmp_log(e: &Env, kind: u32, a: &Address, b: &Address, amount: i128, token: &A
     e.storage().instance().set(&symbol_short!("log"), &log);
 }
 
+/// an approval is `true`; anything else is no approval - and HOW a compliance contract says no is its
+/// own business (flavour "fl"): it returns false, raises a contract error, traps, or answers something
+/// that is not a bool.  The token may move only on `true`.
+fn verdict(e: &Env, approve: bool) -> Val {
+    if approve { return true.into_val(e); }
+    let fl: u32 = e.storage().instance().get(&symbol_short!("fl")).unwrap_or(0);
+    match fl {
+        0 => false.into_val(e),
+        1 => panic_with_error!(e, RWAError::IdentityVerificationFailed),
+        2 => panic!("not compliant"),
+        _ => 7u32.into_val(e),
+    }
+}
+
 #[contractimpl]
 impl MockCmp {
-    pub fn can_transfer(e: &Env, from: Address, to: Address, amount: i128, token: Address) -> bool {
+    pub fn can_transfer(e: &Env, from: Address, to: Address, amount: i128, token: Address) -> Val {
         cmp_log(e, 0, &from, &to, amount, &token);
-        e.storage().instance().get(&symbol_short!("ct")).unwrap_or(false)
+        verdict(e, e.storage().instance().get(&symbol_short!("ct")).unwrap_or(false))
     }
 
-    pub fn can_create(e: &Env, to: Address, amount: i128, token: Address) -> bool {
+    pub fn can_create(e: &Env, to: Address, amount: i128, token: Address) -> Val {
         cmp_log(e, 1, &to, &to, amount, &token);
-        e.storage().instance().get(&symbol_short!("cc")).unwrap_or(false)
+        verdict(e, e.storage().instance().get(&symbol_short!("cc")).unwrap_or(false))
     }
 
     // like the real compliance contract, the hooks accept calls from the token only
@@ -206,6 +227,7 @@ const IDV0: u64 = 60; // the identity verifiers 60, 61
 #[derive(Clone, Debug)]
 enum Op {
     Transfer(usize, usize, i128),
+    TransferMux(usize, usize, u64, i128), // from, to (an account-type address), mux id, amount: the destination is sent as a MuxedAddress with an id
     TransferFrom(usize, usize, usize, i128), // spender, from, to
     Approve(usize, usize, i128, u32),
     Mint(usize, i128, usize),
@@ -228,12 +250,16 @@ struct Orc {
     ct: bool,
     cc: bool,
     rec: std::vec::Vec<(usize, usize)>,
+    /// HOW the collaborators deliver a negative answer (not part of the model: every flavour is "no"):
+    /// compliance 0 returns false / 1 contract error / 2 trap / 3 non-bool value;
+    /// verifier: odd = plain trap instead of a contract error, >= 2 = recovery_target traps instead of None
+    flav: u32,
 }
 
 impl Op {
     fn kind(&self) -> &'static str {
         match self {
-            Op::Transfer(..) => "transfer",
+            Op::Transfer(..) | Op::TransferMux(..) => "transfer",
             Op::TransferFrom(..) => "transfer_from",
             Op::Approve(..) => "approve",
             Op::Mint(..) => "mint",
@@ -253,7 +279,7 @@ impl Op {
     /// the address whose authorisation the entry point requires
     fn signer(&self) -> Option<usize> {
         match *self {
-            Op::Transfer(f, _, _) => Some(f),
+            Op::Transfer(f, _, _) | Op::TransferMux(f, _, _, _) => Some(f),
             Op::TransferFrom(s, _, _, _) => Some(s),
             Op::Approve(o, _, _, _) => Some(o),
             Op::Mint(_, _, o) | Op::Burn(_, _, o) | Op::Forced(_, _, _, o) | Op::Recover(_, _, o) | Op::SetFrozen(_, _, o)
@@ -264,7 +290,8 @@ impl Op {
     fn coq(&self) -> std::string::String {
         let a = |i: usize| n(i as u64);
         match *self {
-            Op::Transfer(f, t, m) => format!("Transfer {} {} {}", a(f), a(t), z(m)),
+            // the mux id is printed with the item (IMux / SIMux): the model's entry point drops it
+            Op::Transfer(f, t, m) | Op::TransferMux(f, t, _, m) => format!("Transfer {} {} {}", a(f), a(t), z(m)),
             Op::TransferFrom(s, f, t, m) => format!("TransferFrom {} {} {} {}", a(s), a(f), a(t), z(m)),
             Op::Approve(o, s, m, l) => format!("Approve {} {} {} {}", a(o), a(s), z(m), l),
             Op::Mint(t, m, o) => format!("Mint {} {} {}", a(t), z(m), a(o)),
@@ -283,8 +310,13 @@ impl Op {
     }
 }
 
+impl Op {
+    fn mux(&self) -> Option<u64> { if let Op::TransferMux(_, _, id, _) = *self { Some(id) } else { None } }
+}
+
 impl Orc {
-    fn open(nu: usize) -> Orc { Orc { verified: (0..nu).collect(), ct: true, cc: true, rec: vec![] } }
+    fn open(nu: usize) -> Orc { Orc { verified: (0..nu).collect(), ct: true, cc: true, rec: vec![], flav: 0 } }
+    fn flav(mut self, f: u32) -> Orc { self.flav = f; self }
     fn coq(&self) -> std::string::String {
         let v: std::vec::Vec<_> = self.verified.iter().map(|&i| n(i as u64)).collect();
         let r: std::vec::Vec<_> = self.rec.iter().map(|&(x, y)| pair(&n(x as u64), &n(y as u64))).collect();
@@ -318,6 +350,13 @@ struct World {
     items: std::vec::Vec<std::string::String>,
     trapped_reads: u64,
     real: bool, // the collaborators are real contracts (stack family): no mock tables, no mock logs
+    nsign: usize, // addresses 0..nsign can sign; later ones (the token itself, the account-type address) never do
+}
+
+/// an account-type (G...) address: the only kind a MuxedAddress with an id can be built on
+fn account_address(e: &Env, seed: u8) -> Address {
+    let sc = xdr::ScAddress::Account(xdr::AccountId(xdr::PublicKey::PublicKeyTypeEd25519(xdr::Uint256([seed; 32]))));
+    Address::try_from_val(e, &xdr::ScVal::Address(sc)).unwrap()
 }
 
 impl World {
@@ -337,8 +376,18 @@ impl World {
         for c in &cmps { e.as_contract(c, || e.storage().instance().set(&symbol_short!("tok"), &tok)); }
         let addrs: std::vec::Vec<Address> = (0..nu).map(|_| Address::generate(&e)).collect();
         let m = Mirror { bal: vec![0; nu], frz: vec![0; nu], flag: vec![false; nu], allow: vec![0; nu * nu], ..Default::default() };
-        World { e, tok, idvs, cmps, addrs, m, min_temp, max_ttl, items: vec![], trapped_reads: 0, real: false }
+        World { e, tok, idvs, cmps, addrs, m, min_temp, max_ttl, items: vec![], trapped_reads: 0, real: false, nsign: nu }
     }
+    /// one more party that never signs (before the first call): returns its index
+    fn push_party(&mut self, a: Address) -> usize {
+        assert!(self.items.is_empty());
+        self.addrs.push(a);
+        let n = self.addrs.len();
+        self.m.bal.push(0); self.m.frz.push(0); self.m.flag.push(false); self.m.allow = vec![0; n * n];
+        n - 1
+    }
+    /// the account-type address (possible destination of muxed transfers) joins the universe
+    fn push_account(&mut self) -> usize { let a = account_address(&self.e, 7); self.push_party(a) }
     fn nu(&self) -> usize { self.addrs.len() }
     fn idx(&self, a: &Address) -> u64 {
         match self.addrs.iter().position(|x| x == a) { Some(i) => i as u64, None => 999 }
@@ -358,11 +407,13 @@ impl World {
                 for &(x, y) in &o.rec { r.set(self.addrs[x].clone(), self.addrs[y].clone()); }
                 e.storage().instance().set(&symbol_short!("ver"), &v);
                 e.storage().instance().set(&symbol_short!("rec"), &r);
+                e.storage().instance().set(&symbol_short!("fl"), &o.flav);
                 e.storage().instance().set(&symbol_short!("log"), &Vec::<(u32, Address)>::new(e));
             });
             e.as_contract(&self.cmps[k], || {
                 e.storage().instance().set(&symbol_short!("ct"), &o.ct);
                 e.storage().instance().set(&symbol_short!("cc"), &o.cc);
+                e.storage().instance().set(&symbol_short!("fl"), &o.flav);
                 e.storage().instance().set(&symbol_short!("log"), &Vec::<(u32, Address, Address, i128, bool)>::new(e));
             });
         }
@@ -373,6 +424,7 @@ impl World {
         let a = |i: usize| self.addrs[i].clone();
         Some(match *op {
             Op::Transfer(f, t, m) => ("transfer", (a(f), MuxedAddress::from(a(t)), m).into_val(e)),
+            Op::TransferMux(f, t, id, m) => ("transfer", (a(f), MuxedAddress::new(a(t), id), m).into_val(e)),
             Op::TransferFrom(s, f, t, m) => ("transfer_from", (a(s), a(f), a(t), m).into_val(e)),
             Op::Approve(o, s, m, l) => ("approve", (a(o), a(s), m, l).into_val(e)),
             Op::Mint(t, m, o) => ("mint", (a(t), m, a(o)).into_val(e)),
@@ -483,7 +535,13 @@ impl World {
         let oc = match orc_b { None => format!("(orc1 {})", orc.coq()), Some(ob) => format!("(orc2 {} {})", orc.coq(), ob.coq()) };
         let call = format!("(mkCall ({}) {} {})", op.coq(), list(&au), oc);
         out.case(&format!("{}/{}", op.kind(), if ok { "ok" } else { "fail" }), &call);
-        self.items.push(format!("I {} {} {}", call, outcome, obs));
+        match op.mux() {
+            None => self.items.push(format!("I {} {} {}", call, outcome, obs)),
+            Some(id) => {
+                out.label(&format!("transfer-muxed/{}", if ok { "ok" } else { "fail" }));
+                self.items.push(format!("IMux {} {} {} {}", z(id as i128), call, outcome, obs));
+            }
+        }
         ok
     }
 
@@ -498,6 +556,7 @@ impl World {
             }
             Some((fname, args)) => {
                 let e = &self.e;
+                assert!(auths.iter().all(|&i| i < self.nsign), "only the first nsign addresses can sign");
                 let invs: std::vec::Vec<MockAuthInvoke> = auths.iter().map(|_| MockAuthInvoke {
                     contract: &self.tok, fn_name: fname, args: args.clone(), sub_invokes: &[],
                 }).collect();
@@ -524,7 +583,7 @@ impl World {
 
     /// call with the needed signer and fully open collaborators
     fn exec_plain(&mut self, out: &mut Out, op: &Op) -> bool {
-        let au: std::vec::Vec<usize> = op.signer().into_iter().collect();
+        let au: std::vec::Vec<usize> = op.signer().into_iter().filter(|&i| i < self.nsign).collect();
         let orc = Orc::open(self.nu());
         self.exec(out, op, &au, &orc)
     }
@@ -540,6 +599,8 @@ impl World {
 
 // ---------------------------------------------------------------- generators
 const MAXTTL: u32 = 6_312_000;
+/// boundary catalogue of mux ids (u64)
+const MUX_IDS: [u64; 5] = [0, 1, 7, u64::MAX - 1, u64::MAX];
 
 fn setup_std(w: &mut World, out: &mut Out, adv: u32) {
     w.exec_plain(out, &Op::Advance(adv));
@@ -549,10 +610,13 @@ fn setup_std(w: &mut World, out: &mut Out, adv: u32) {
 
 /// exhaustive gate vector for one entry point: bit0 paused, bit1 from frozen, bit2 to frozen,
 /// bit3 partial freeze above the amount, bit4 from unverified, bit5 to unverified, bit6 compliance denies
-fn gate_trace(out: &mut Out, rng: &mut Rng, via_allowance: bool, bits: u32) {
-    let nu = 4;
-    let mut w = World::new(nu, 1, MAXTTL);
-    let (a, bb, s, adm) = (0usize, 1usize, 2usize, 3usize);
+/// mode 0 = transfer, 1 = transfer_from, 2 = transfer to a MUXED destination (the receiver is the account-type address)
+fn gate_trace(out: &mut Out, rng: &mut Rng, mode: u32, bits: u32) {
+    let via_allowance = mode == 1;
+    let mut w = World::new(4, 1, MAXTTL);
+    let (a, mut bb, s, adm) = (0usize, 1usize, 2usize, 3usize);
+    if mode == 2 { bb = w.push_account(); }
+    let nu = w.nu();
     setup_std(&mut w, out, rng.below(50) as u32);
     w.exec_plain(out, &Op::Mint(a, 100, adm));
     if rng.chance(1, 2) { w.exec_plain(out, &Op::Mint(bb, 10, adm)); }
@@ -569,10 +633,14 @@ fn gate_trace(out: &mut Out, rng: &mut Rng, via_allowance: bool, bits: u32) {
     let mut orc = Orc::open(nu);
     if bits & 16 != 0 { orc.verified.retain(|&x| x != a); }
     if bits & 32 != 0 { orc.verified.retain(|&x| x != bb); }
-    if bits & 64 != 0 { orc.ct = false; }
-    let (op, au) = if via_allowance { (Op::TransferFrom(s, a, bb, amt), vec![s]) } else { (Op::Transfer(a, bb, amt), vec![a]) };
+    if bits & 64 != 0 { orc.ct = false; orc.flav = rng.below(4) as u32; }
+    let (op, au) = match mode {
+        1 => (Op::TransferFrom(s, a, bb, amt), vec![s]),
+        2 => (Op::TransferMux(a, bb, *rng.pick(&MUX_IDS), amt), vec![a]),
+        _ => (Op::Transfer(a, bb, amt), vec![a]),
+    };
     let ok = w.exec(out, &op, &au, &orc);
-    let ep = if via_allowance { "transfer_from" } else { "transfer" };
+    let ep = ["transfer", "transfer_from", "transfer_muxed"][mode as usize];
     if bits == 0 { out.label(&format!("gate/{}/all-open/{}", ep, if ok { "ok" } else { "fail" })); }
     if bits.count_ones() == 1 {
         let nm = ["paused", "from-frozen", "to-frozen", "partial-freeze", "from-unverified", "to-unverified", "compliance-denies"][bits.trailing_zeros() as usize];
@@ -898,8 +966,7 @@ fn situations(out: &mut Out) {
     {
         let mut w = World::new(nu, 1, MAXTTL);
         let t = w.tok.clone();
-        w.addrs.push(t);                       // index 4 = the token itself (it never signs)
-        w.m.bal.push(0); w.m.frz.push(0); w.m.flag.push(false); w.m.allow = vec![0; 25];
+        w.push_party(t);                       // index 4 = the token itself (it never signs)
         let open5 = Orc::open(5);
         setup_std(&mut w, out, 2);
         w.exec(out, &Op::Mint(0, 50, adm), &[adm], &open5);
@@ -911,6 +978,99 @@ fn situations(out: &mut Out) {
         let r = w.exec(out, &Op::Transfer(0, 4, 1), &[0], &open5); lab(out, "party/token-itself-frozen", r);
         let r = w.exec(out, &Op::Forced(4, 1, 15, adm), &[adm], &open5); lab(out, "party/forced-out-of-the-token-itself", r);
         w.finish(out, "situations/contract-as-party");
+    }
+    // MUXED DESTINATIONS: FungibleToken::transfer takes a MuxedAddress; an account-type address (index 4, it
+    // never signs) receives with every id of the boundary catalogue and without an id; every gate still
+    // applies, the compliance contract is notified exactly once naming the address part
+    {
+        let mut w = World::new(nu, 1, MAXTTL);
+        let acc = w.push_account();
+        let open5 = Orc::open(5);
+        setup_std(&mut w, out, 6);
+        w.exec(out, &Op::Mint(0, 1000, adm), &[adm], &open5);
+        w.exec(out, &Op::Freeze(0, 100, adm), &[adm], &open5);
+        for id in MUX_IDS {
+            let r = w.exec(out, &Op::TransferMux(0, acc, id, 10), &[0], &open5);
+            lab(out, &format!("mux/transfer/id-{}", match id { u64::MAX => "max".to_string(), x if x == u64::MAX - 1 => "max-1".to_string(), x => x.to_string() }), r);
+        }
+        let r = w.exec(out, &Op::Transfer(0, acc, 10), &[0], &open5); lab(out, "mux/account-destination-without-id", r);
+        let r = w.exec(out, &Op::TransferMux(0, acc, 7, 0), &[0], &open5); lab(out, "mux/zero-amount", r);
+        let r = w.exec(out, &Op::TransferMux(0, acc, 7, 840), &[0], &open5); lab(out, "mux/exactly-the-free-balance", r);
+        let r = w.exec(out, &Op::TransferMux(0, acc, 7, 1), &[0], &open5); lab(out, "mux/one-more-than-free", r);
+        let r = w.exec(out, &Op::TransferMux(0, acc, 7, -1), &[0], &open5); lab(out, "mux/negative-amount", r);
+        let r = w.exec(out, &Op::TransferMux(1, acc, 7, 0), &[0], &open5); lab(out, "mux/holder-did-not-sign", r);
+        // what arrived at the account address is an ordinary balance: frozen, forced out, recovered, burnt like any other
+        w.exec(out, &Op::Freeze(acc, 900, adm), &[adm], &open5);
+        w.exec(out, &Op::Unfreeze(0, 100, adm), &[adm], &open5);
+        let r = w.exec(out, &Op::TransferMux(0, acc, 1, 100), &[0], &open5); lab(out, "mux/receiver-has-all-its-tokens-frozen", r);
+        let r = w.exec(out, &Op::Forced(acc, 1, 150, adm), &[adm], &open5); lab(out, "mux/forced-out-of-the-account", r);
+        let mut o = open5.clone(); o.rec = vec![(acc, 2)];
+        let r = w.exec(out, &Op::Recover(acc, 2, adm), &[adm], &o); lab(out, "mux/recovered-from-the-account", r);
+        w.finish(out, "situations/muxed-destination");
+    }
+    // ... and under each single closed gate (also with amount 0) the muxed transfer fails like the plain one
+    for (k, name) in ["paused", "from-frozen", "to-frozen", "partial-freeze", "from-unverified", "to-unverified", "compliance-refuses"].iter().enumerate() {
+        let mut w = World::new(nu, 1, MAXTTL);
+        let acc = w.push_account();
+        let open5 = Orc::open(5);
+        setup_std(&mut w, out, 8);
+        w.exec(out, &Op::Mint(0, 100, adm), &[adm], &open5);
+        w.exec(out, &Op::Freeze(0, 80, adm), &[adm], &open5);
+        let mut o = open5.clone();
+        let mut amt = 5i128;
+        match k {
+            0 => { w.exec(out, &Op::Pause(adm), &[adm], &open5); }
+            1 => { w.exec(out, &Op::SetFrozen(0, true, adm), &[adm], &open5); }
+            2 => { w.exec(out, &Op::SetFrozen(acc, true, adm), &[adm], &open5); }
+            3 => amt = 21,
+            4 => o.verified.retain(|&x| x != 0),
+            5 => o.verified.retain(|&x| x != acc),
+            _ => o.ct = false,
+        }
+        let r = w.exec(out, &Op::TransferMux(0, acc, MUX_IDS[k % 5], amt), &[0], &o); lab(out, &format!("mux/gate/{}", name), r);
+        if k != 3 { let r = w.exec(out, &Op::TransferMux(0, acc, 7, 0), &[0], &o); lab(out, &format!("mux/gate-zero-amount/{}", name), r); }
+        // the same destination without an id, for comparison, then every gate open again
+        w.exec(out, &Op::Transfer(0, acc, amt), &[0], &o);
+        match k {
+            0 => { w.exec(out, &Op::Unpause(adm), &[adm], &open5); }
+            1 => { w.exec(out, &Op::SetFrozen(0, false, adm), &[adm], &open5); }
+            2 => { w.exec(out, &Op::SetFrozen(acc, false, adm), &[adm], &open5); }
+            3 => { w.exec(out, &Op::Unfreeze(0, 1, adm), &[adm], &open5); }
+            _ => {}
+        }
+        let r = w.exec(out, &Op::TransferMux(0, acc, MUX_IDS[k % 5], amt), &[0], &open5); lab(out, &format!("mux/gate-reopened/{}", name), r);
+        w.finish(out, &format!("situations/muxed-gate/{}", name));
+    }
+    // HOW a collaborator says no is its own business: a compliance contract that raises an error, traps or
+    // answers a non-bool instead of returning false - and a verifier that traps plainly - is NO approval,
+    // through every holder-initiated entry point (plain / muxed transfer, transfer_from) and mint
+    for flav in 0..4u32 {
+        let fname = ["returns-false", "contract-error", "trap", "non-bool"][flav as usize];
+        let mut w = World::new(nu, 1, MAXTTL);
+        let acc = w.push_account();
+        let open5 = Orc::open(5);
+        setup_std(&mut w, out, 5);
+        w.exec(out, &Op::Mint(0, 100, adm), &[adm], &open5);
+        w.exec(out, &Op::Approve(0, 2, 50, 1000), &[0], &open5);
+        let mut no_ct = open5.clone().flav(flav); no_ct.ct = false;
+        let mut no_cc = open5.clone().flav(flav); no_cc.cc = false;
+        let r = w.exec(out, &Op::Transfer(0, 1, 5), &[0], &no_ct); lab(out, &format!("says-no/can_transfer/{}/transfer", fname), r);
+        let r = w.exec(out, &Op::TransferMux(0, acc, 7, 5), &[0], &no_ct); lab(out, &format!("says-no/can_transfer/{}/transfer-muxed", fname), r);
+        let r = w.exec(out, &Op::TransferFrom(2, 0, 1, 5), &[2], &no_ct); lab(out, &format!("says-no/can_transfer/{}/transfer_from", fname), r);
+        let r = w.exec(out, &Op::Mint(1, 5, adm), &[adm], &no_cc); lab(out, &format!("says-no/can_create/{}/mint", fname), r);
+        // the other query's refusal is irrelevant, whatever its flavour
+        let r = w.exec(out, &Op::Mint(1, 5, adm), &[adm], &no_ct); lab(out, &format!("says-no/can_transfer/{}/mint-unaffected", fname), r);
+        let r = w.exec(out, &Op::Transfer(0, 1, 5), &[0], &no_cc); lab(out, &format!("says-no/can_create/{}/transfer-unaffected", fname), r);
+        // supervisory movements do not ask
+        let r = w.exec(out, &Op::Forced(0, 1, 5, adm), &[adm], &no_ct); lab(out, &format!("says-no/can_transfer/{}/forced-transfer-unaffected", fname), r);
+        // the verifier: unverified sender / receiver, recovery target unknown
+        let mut unv = open5.clone().flav(flav); unv.verified.retain(|&x| x != 0);
+        let r = w.exec(out, &Op::Transfer(0, 1, 5), &[0], &unv); lab(out, &format!("says-no/verify/{}/sender", fname), r);
+        let mut unv = open5.clone().flav(flav); unv.verified.retain(|&x| x != acc);
+        let r = w.exec(out, &Op::TransferMux(0, acc, 1, 5), &[0], &unv); lab(out, &format!("says-no/verify/{}/muxed-receiver", fname), r);
+        let r = w.exec(out, &Op::Recover(0, 1, adm), &[adm], &open5.clone().flav(flav)); lab(out, &format!("says-no/recovery_target/{}", fname), r);
+        w.exec(out, &Op::Transfer(0, 1, 5), &[0], &open5);
+        w.finish(out, &format!("situations/says-no/{}", fname));
     }
 }
 
@@ -929,6 +1089,9 @@ fn random_trace(out: &mut Out, rng: &mut Rng, idx: usize, len: usize, nu: usize)
     let min_temp = if rng.chance(1, 3) { 16 } else { 1 };
     let max_ttl = match rng.below(4) { 0 => 5000, 1 => 1_000_000, _ => MAXTTL };
     let mut w = World::new(nu, min_temp, max_ttl);
+    // half of the traces have the account-type address (possible muxed destination) as one more party
+    let acc = if rng.chance(1, 2) { Some(w.push_account()) } else { None };
+    let nall = w.nu();
     let a0 = rng.below(300) as u32;
     w.exec_plain(out, &Op::Advance(a0));
     let late_setup = rng.chance(1, 8);
@@ -937,18 +1100,27 @@ fn random_trace(out: &mut Out, rng: &mut Rng, idx: usize, len: usize, nu: usize)
         w.exec_plain(out, &Op::SetCompliance(rng.below(2) as usize, o));
         w.exec_plain(out, &Op::SetIdv(rng.below(2) as usize, o));
         for _ in 0..(1 + rng.below(3)) {
-            let t = rng.below(nu as u64) as usize;
+            let t = rng.below(nall as u64) as usize;
             let amt = 1 + rng.below(1000) as i128;
             w.exec_plain(out, &Op::Mint(t, amt, o));
         }
     }
     while w.items.len() < len {
-        let ad = |rng: &mut Rng| rng.below(nu as u64) as usize;
-        let (x, y, s, o) = (ad(rng), ad(rng), ad(rng), ad(rng));
+        let ad = |rng: &mut Rng| rng.below(nu as u64) as usize;       // those who can sign
+        let pa = |rng: &mut Rng| rng.below(nall as u64) as usize;     // any party
+        let (x, y, s, o) = (pa(rng), pa(rng), ad(rng), ad(rng));
         // holders with a balance are more interesting senders
-        let x = if rng.chance(2, 3) { (0..nu).filter(|&i| w.m.bal[i] > 0).nth(rng.below(2) as usize).unwrap_or(x) } else { x };
+        let x = if rng.chance(2, 3) { (0..nall).filter(|&i| w.m.bal[i] > 0).nth(rng.below(2) as usize).unwrap_or(x) } else { x };
         let op = match rng.below(100) {
-            0..=17 => Op::Transfer(x, y, pick_amount(rng, &[w.free(x), w.m.bal[x]])),
+            0..=17 => {
+                let amt = pick_amount(rng, &[w.free(x), w.m.bal[x]]);
+                // towards the account address mostly as a muxed destination
+                let y = if acc.is_some() && rng.chance(1, 4) { acc.unwrap() } else { y };
+                if Some(y) == acc && rng.chance(2, 3) {
+                    let id = if rng.chance(1, 2) { *rng.pick(&MUX_IDS) } else { rng.next_u64() };
+                    Op::TransferMux(x, y, id, amt)
+                } else { Op::Transfer(x, y, amt) }
+            }
             18..=33 => Op::TransferFrom(s, x, y, pick_amount(rng, &[w.free(x), w.m.bal[x], w.allowance(x, s)])),
             34..=43 => {
                 let live = match rng.below(10) {
@@ -980,25 +1152,26 @@ fn random_trace(out: &mut Out, rng: &mut Rng, idx: usize, len: usize, nu: usize)
         let mut au: std::vec::Vec<usize> = vec![];
         if let Some(sg) = op.signer() {
             match rng.below(20) {
+                _ if sg >= nu => { if rng.chance(1, 2) { au.push(ad(rng)); } }   // the account / the token never sign
                 0 => {}
                 1 => { let other = (sg + 1 + rng.below(nu as u64 - 1) as usize) % nu; au.push(other); }
                 2 | 3 => { au.push(sg); au.push(ad(rng)); }
                 _ => au.push(sg),
             }
         }
-        // collaborators' answers
-        let mut orc = Orc::open(nu);
+        // collaborators' answers (and how they deliver a negative one)
+        let mut orc = Orc::open(nall).flav(rng.below(4) as u32);
         orc.verified.retain(|_| !rng.chance(1, 12));
         orc.ct = !rng.chance(1, 8);
         orc.cc = !rng.chance(1, 8);
-        for i in 0..nu { if rng.chance(1, 4) { orc.rec.push((i, ad(rng))); } }
+        for i in 0..nall { if rng.chance(1, 4) { orc.rec.push((i, pa(rng))); } }
         if let Op::Recover(old, new, _) = op {
             if rng.chance(3, 4) { orc.rec.retain(|p| p.0 != old); orc.rec.insert(0, (old, new)); }
         }
         // now and then close exactly the paused gate around a movement
         // the other instance of each collaborator answers differently now and then
         if rng.chance(1, 3) {
-            let mut ob = Orc::open(nu);
+            let mut ob = Orc::open(nall).flav(rng.below(4) as u32);
             ob.verified.retain(|_| !rng.chance(1, 4));
             ob.ct = rng.chance(1, 2);
             ob.cc = rng.chance(1, 2);
@@ -1115,7 +1288,9 @@ mod cmpl {
         }
     }
 
-    /// a compliance module: reports what it receives; refuses when told to
+    /// a compliance module: reports what it receives; refuses (returns false) or FAILS when told to.
+    /// mode 0 = approves / accepts, 1 = refuses (false), 2 = raises a contract error, 3 = traps,
+    /// 4 = answers a value of the wrong type (a u32 where a bool / unit is expected)
     #[contract]
     pub struct Mod;
 
@@ -1123,30 +1298,52 @@ mod cmpl {
         let rec: Address = e.storage().instance().get(&symbol_short!("rec")).unwrap();
         RecClient::new(e, &rec).rec(&e.current_contract_address(), &kind, a, b, &amount, token);
     }
+    fn behave(e: &Env, query: bool) -> Val {
+        let mode: u32 = e.storage().instance().get(&symbol_short!("mode")).unwrap_or(0);
+        match mode {
+            2 => panic_with_error!(e, RWAError::IdentityVerificationFailed),
+            3 => panic!("module failure"),
+            4 => 7u32.into_val(e),
+            1 if query => false.into_val(e),
+            _ => if query { true.into_val(e) } else { ().into_val(e) },
+        }
+    }
 
     #[contractimpl]
     impl Mod {
-        pub fn on_transfer(e: &Env, from: Address, to: Address, amount: i128, token: Address) {
+        pub fn on_transfer(e: &Env, from: Address, to: Address, amount: i128, token: Address) -> Val {
             report(e, 0, &from, &to, amount, &token);
+            behave(e, false)
         }
 
-        pub fn on_created(e: &Env, to: Address, amount: i128, token: Address) {
+        pub fn on_created(e: &Env, to: Address, amount: i128, token: Address) -> Val {
             report(e, 1, &to, &to, amount, &token);
+            behave(e, false)
         }
 
-        pub fn on_destroyed(e: &Env, from: Address, amount: i128, token: Address) {
+        pub fn on_destroyed(e: &Env, from: Address, amount: i128, token: Address) -> Val {
             report(e, 2, &from, &from, amount, &token);
+            behave(e, false)
         }
 
-        pub fn can_transfer(e: &Env, from: Address, to: Address, amount: i128, token: Address) -> bool {
+        pub fn can_transfer(e: &Env, from: Address, to: Address, amount: i128, token: Address) -> Val {
             report(e, 3, &from, &to, amount, &token);
-            !e.storage().instance().get(&symbol_short!("deny")).unwrap_or(false)
+            behave(e, true)
         }
 
-        pub fn can_create(e: &Env, to: Address, amount: i128, token: Address) -> bool {
+        pub fn can_create(e: &Env, to: Address, amount: i128, token: Address) -> Val {
             report(e, 4, &to, &to, amount, &token);
-            !e.storage().instance().get(&symbol_short!("deny")).unwrap_or(false)
+            behave(e, true)
         }
+    }
+
+    /// a contract that is NOT a compliance module (it has none of the hook functions)
+    #[contract]
+    pub struct NotAModule;
+
+    #[contractimpl]
+    impl NotAModule {
+        pub fn hello(_e: &Env) -> u32 { 1 }
     }
 
     /// a token-like contract that forwards notifications to the compliance contract
@@ -1235,7 +1432,10 @@ mod cmpl {
         pub rec: Address,
         pub parties: std::vec::Vec<Address>,
         pub tokens: std::vec::Vec<Address>, // token 0 and 2 are Fwd contracts, token 1 a plain address
-        pub modules: std::vec::Vec<Address>,
+        pub modules: std::vec::Vec<Address>,         // `live` Mod contracts, then two that can never be called:
+        pub live: usize,                             // index live = an address where no contract is deployed,
+                                                     // index live+1 = a contract without the hook functions
+        pub flavour: u32,                            // how the modules told to fail do it (mode 2, 3 or 4)
         pub items: std::vec::Vec<std::string::String>,
         pub mods: std::vec::Vec<std::vec::Vec<usize>>, // mirror of the hook lists
         pub bound: std::vec::Vec<bool>,
@@ -1259,32 +1459,40 @@ mod cmpl {
             let rec = e.register(Rec, ());
             let parties: std::vec::Vec<Address> = (0..4).map(|_| Address::generate(&e)).collect();
             let tokens = vec![e.register(Fwd, ()), Address::generate(&e), e.register(Fwd, ())];
-            let modules: std::vec::Vec<Address> = (0..nmods).map(|_| {
+            let modules = CWorld::make_modules(&e, &rec, nmods);
+            CWorld { e, cmp, rec, parties, tokens, modules, live: nmods, flavour: 2, items: vec![], mods: vec![vec![]; 5], bound: vec![false; 3], trapped_reads: 0, last: Default::default() }
+        }
+        fn make_modules(e: &Env, rec: &Address, nmods: usize) -> std::vec::Vec<Address> {
+            let mut modules: std::vec::Vec<Address> = (0..nmods).map(|_| {
                 let m = e.register(Mod, ());
-                e.as_contract(&m, || e.storage().instance().set(&symbol_short!("rec"), &rec));
+                e.as_contract(&m, || e.storage().instance().set(&symbol_short!("rec"), rec));
                 m
             }).collect();
-            CWorld { e, cmp, rec, parties, tokens, modules, items: vec![], mods: vec![vec![]; 5], bound: vec![false; 3], trapped_reads: 0, last: Default::default() }
+            modules.push(Address::generate(e));           // nothing deployed there
+            modules.push(e.register(NotAModule, ()));     // deployed, but not a module
+            modules
         }
         /// the compliance contract, its recorder and `nmods` modules inside an existing Env, for one token
         pub fn in_env(e: &Env, parties: std::vec::Vec<Address>, token: Address, nmods: usize) -> CWorld {
             let cmp = e.register(Cmp, ());
             let rec = e.register(Rec, ());
-            let modules: std::vec::Vec<Address> = (0..nmods).map(|_| {
-                let m = e.register(Mod, ());
-                e.as_contract(&m, || e.storage().instance().set(&symbol_short!("rec"), &rec));
-                m
-            }).collect();
-            CWorld { e: e.clone(), cmp, rec, parties, tokens: vec![token], modules, items: vec![], mods: vec![vec![]; 5], bound: vec![false; 1], trapped_reads: 0, last: Default::default() }
+            let modules = CWorld::make_modules(e, &rec, nmods);
+            CWorld { e: e.clone(), cmp, rec, parties, tokens: vec![token], modules, live: nmods, flavour: 2, items: vec![], mods: vec![vec![]; 5], bound: vec![false; 1], trapped_reads: 0, last: Default::default() }
         }
-        /// the modules' answers for the next call + an empty recorder
-        pub fn prepare(&self, deny: &[usize]) {
+        /// the modules' behaviour during the next call (failing wins over refusing) + an empty recorder
+        pub fn prepare(&self, deny: &[usize], fail: &[usize]) {
             let e = &self.e;
-            for (i, m) in self.modules.iter().enumerate() {
-                let d = deny.contains(&i);
-                e.as_contract(m, || e.storage().instance().set(&symbol_short!("deny"), &d));
+            for (i, m) in self.modules.iter().enumerate().take(self.live) {
+                let mode: u32 = if fail.contains(&i) { self.flavour } else if deny.contains(&i) { 1 } else { 0 };
+                e.as_contract(m, || e.storage().instance().set(&symbol_short!("mode"), &mode));
             }
             e.as_contract(&self.rec, || e.storage().instance().set(&symbol_short!("log"), &Vec::<(Address, u32, Address, Address, i128, Address)>::new(e)));
+        }
+        /// the modules that fail during a call: those told to, and the two that can never be called
+        pub fn failing(&self, fail: &[usize]) -> std::vec::Vec<usize> {
+            let mut v: std::vec::Vec<usize> = fail.iter().cloned().filter(|&i| i < self.live).collect();
+            v.push(self.live); v.push(self.live + 1);
+            v
         }
         pub fn num(&self, a: &Address) -> u64 {
             if let Some(i) = self.parties.iter().position(|x| x == a) { return PARTY0 + i as u64; }
@@ -1338,23 +1546,23 @@ mod cmpl {
 
         /// `via`: Some(k) = the call is made by the forwarder contract that is token k (only for notifications)
         pub fn exec(&mut self, out: &mut Out, op: &COp, auths: &[Who], deny: &[usize], via: Option<usize>) -> bool {
+            self.exec_f(out, op, auths, deny, &[], via)
+        }
+        /// `fail`: the modules that fail (in the world's current `flavour`) during this call
+        pub fn exec_f(&mut self, out: &mut Out, op: &COp, auths: &[Who], deny: &[usize], fail: &[usize], via: Option<usize>) -> bool {
             let e = self.e.clone();
             if let COp::Advance(k) = *op {
                 e.as_contract(&self.rec, || e.storage().instance().set(&symbol_short!("log"), &Vec::<(Address, u32, Address, Address, i128, Address)>::new(&e)));
                 e.ledger().with_mut(|l| l.sequence_number += k);
                 let obs = self.observe();
-                let call = format!("(mkCC ({}) [] [])", op.coq());
+                let call = format!("(mkCCF ({}) [] [] [])", op.coq());
                 out.case("c.advance/ok", &call);
                 self.last = (call.clone(), "(Ok None)".to_string(), obs.clone());
                 self.items.push(format!("CI {} (Ok None) {}", call, obs));
                 return true;
             }
-            // collaborators' answers + clear the recorder
-            for (i, m) in self.modules.iter().enumerate() {
-                let d = deny.contains(&i);
-                e.as_contract(m, || e.storage().instance().set(&symbol_short!("deny"), &d));
-            }
-            e.as_contract(&self.rec, || e.storage().instance().set(&symbol_short!("log"), &Vec::<(Address, u32, Address, Address, i128, Address)>::new(&e)));
+            // collaborators' behaviour + clear the recorder
+            self.prepare(deny, fail);
             let p = |i: usize| self.parties[i].clone();
             let t = |i: usize| self.tokens[i].clone();
             let m = |i: usize| self.modules[i].clone();
@@ -1398,7 +1606,8 @@ mod cmpl {
             let mut au: std::vec::Vec<std::string::String> = auths.iter().map(|&w| n(self.num(&self.addr(w)))).collect();
             if let Some(k) = via { au.push(n(TOK0 + k as u64)); }
             let dn: std::vec::Vec<_> = deny.iter().map(|&i| n(MOD0 + i as u64)).collect();
-            let call = format!("(mkCC ({}) {} {})", op.coq(), list(&au), list(&dn));
+            let fl: std::vec::Vec<_> = self.failing(fail).iter().map(|&i| n(MOD0 + i as u64)).collect();
+            let call = format!("(mkCCF ({}) {} {} {})", op.coq(), list(&au), list(&dn), list(&fl));
             let tag = if !ok { "fail" } else if outcome.contains("true") { "true" } else if outcome.contains("false") { "false" } else { "ok" };
             out.case(&format!("{}/{}", op.kind(), tag), &call);
             self.last = (call.clone(), outcome.clone(), obs.clone());
@@ -1493,6 +1702,81 @@ mod cmpl {
             w.exec(out, &COp::Transferred(0, 0, -5, 2), &[], &[], Some(2));
             w.finish(out, "compliance/directed/dispatch");
         }
+        // FAILING MODULES: a module that raises an error / traps / answers a non-bool / is not deployed / is
+        // not a module at all is never an approval and never a delivered notification: the hook call
+        // fails as a whole, through every hook, whatever the position of the module in the list
+        for flavour in [2u32, 3, 4] {
+            let fname = ["", "", "contract-error", "trap", "wrong-type"][flavour as usize];
+            let mut w = CWorld::new(4);
+            w.flavour = flavour;
+            for md in [2usize, 0, 1] { for h in 0..5 { w.exec_plain(out, &COp::Add(h, md, 3)); } }
+            w.exec_plain(out, &COp::Bind(0, 3));
+            let tag = |ok: bool, last: &(std::string::String, std::string::String, std::string::String)| -> &'static str {
+                if !ok { "fail" } else if last.1.contains("true") { "true" } else if last.1.contains("false") { "false" } else { "ok" } };
+            for (pos, md) in [("first", 2usize), ("middle", 0), ("last", 1)] {
+                let ok = w.exec_f(out, &COp::CanTransfer(0, 1, 50, 0), &[], &[], &[md], None);
+                out.label(&format!("d.cmod/can_transfer/{}/{}-module-fails/{}", fname, pos, tag(ok, &w.last)));
+                let ok = w.exec_f(out, &COp::CanCreate(1, 5, 0), &[], &[], &[md], None);
+                out.label(&format!("d.cmod/can_create/{}/{}-module-fails/{}", fname, pos, tag(ok, &w.last)));
+                let ok = w.exec_f(out, &COp::Transferred(0, 1, 50, 0), &[], &[], &[md], Some(0));
+                out.label(&format!("d.cmod/transferred/{}/{}-module-fails/{}", fname, pos, tag(ok, &w.last)));
+                let ok = w.exec_f(out, &COp::Created(1, 5, 0), &[], &[], &[md], Some(0));
+                out.label(&format!("d.cmod/created/{}/{}-module-fails/{}", fname, pos, tag(ok, &w.last)));
+                let ok = w.exec_f(out, &COp::Destroyed(1, 5, 0), &[], &[], &[md], Some(0));
+                out.label(&format!("d.cmod/destroyed/{}/{}-module-fails/{}", fname, pos, tag(ok, &w.last)));
+            }
+            // a refusal BEFORE the failing module ends the loop with false; a refusal AFTER it is never reached
+            let ok = w.exec_f(out, &COp::CanTransfer(0, 1, 50, 0), &[], &[2], &[0], None);
+            out.label(&format!("d.cmod/can_transfer/{}/refused-before-the-failing-module/{}", fname, tag(ok, &w.last)));
+            let ok = w.exec_f(out, &COp::CanTransfer(0, 1, 50, 0), &[], &[1], &[0], None);
+            out.label(&format!("d.cmod/can_transfer/{}/refusal-after-the-failing-module/{}", fname, tag(ok, &w.last)));
+            let ok = w.exec_f(out, &COp::CanCreate(1, 5, 0), &[], &[2], &[1], None);
+            out.label(&format!("d.cmod/can_create/{}/refused-before-the-failing-module/{}", fname, tag(ok, &w.last)));
+            let ok = w.exec_f(out, &COp::CanTransfer(0, 1, 50, 0), &[], &[0], &[0], None);   // told both: failing wins
+            out.label(&format!("d.cmod/can_transfer/{}/module-both-refusing-and-failing/{}", fname, tag(ok, &w.last)));
+            let ok = w.exec_f(out, &COp::CanTransfer(0, 1, 50, 0), &[], &[], &[0, 1, 2], None);
+            out.label(&format!("d.cmod/can_transfer/{}/all-modules-fail/{}", fname, tag(ok, &w.last)));
+            // a failing module that is not registered (for this hook) does not matter
+            let ok = w.exec_f(out, &COp::CanTransfer(0, 1, 50, 0), &[], &[], &[3], None);
+            out.label(&format!("d.cmod/can_transfer/{}/unregistered-module-fails/{}", fname, tag(ok, &w.last)));
+            w.exec_plain(out, &COp::Remove(3, 0, 3));
+            let ok = w.exec_f(out, &COp::CanTransfer(0, 1, 50, 0), &[], &[], &[0], None);
+            out.label(&format!("d.cmod/can_transfer/{}/removed-module-fails/{}", fname, tag(ok, &w.last)));
+            let ok = w.exec_f(out, &COp::Transferred(0, 1, 50, 0), &[], &[], &[0], Some(0));      // still registered for Transferred
+            out.label(&format!("d.cmod/transferred/{}/module-removed-from-another-hook-fails/{}", fname, tag(ok, &w.last)));
+            w.exec(out, &COp::Transferred(0, 1, 50, 0), &[], &[], Some(0));                       // everybody well again
+            w.exec(out, &COp::CanTransfer(0, 1, 50, 0), &[], &[], None);
+            w.finish(out, &format!("compliance/directed/failing-modules/{}", fname));
+        }
+        // modules that can never be called: an address where nothing is deployed (index 4), a contract
+        // without the hook functions (index 5) - registered like any other module
+        for (dead, dname) in [(4usize, "not-deployed"), (5, "not-a-module")] {
+            let mut w = CWorld::new(4);
+            w.exec_plain(out, &COp::Bind(0, 3));
+            for h in 0..5 { w.exec_plain(out, &COp::Add(h, 1, 3)); }
+            w.exec(out, &COp::CanTransfer(0, 1, 50, 0), &[], &[], None);
+            for h in 0..5 { w.exec_plain(out, &COp::Add(h, dead, 3)); }
+            let tag = |ok: bool, last: &(std::string::String, std::string::String, std::string::String)| -> &'static str {
+                if !ok { "fail" } else if last.1.contains("true") { "true" } else if last.1.contains("false") { "false" } else { "ok" } };
+            let ok = w.exec(out, &COp::CanTransfer(0, 1, 50, 0), &[], &[], None);
+            out.label(&format!("d.cmod/can_transfer/{}/{}", dname, tag(ok, &w.last)));
+            let ok = w.exec(out, &COp::CanCreate(1, 5, 0), &[], &[], None);
+            out.label(&format!("d.cmod/can_create/{}/{}", dname, tag(ok, &w.last)));
+            let ok = w.exec(out, &COp::Transferred(0, 1, 50, 0), &[], &[], Some(0));
+            out.label(&format!("d.cmod/transferred/{}/{}", dname, tag(ok, &w.last)));
+            let ok = w.exec(out, &COp::Created(1, 5, 0), &[], &[], Some(0));
+            out.label(&format!("d.cmod/created/{}/{}", dname, tag(ok, &w.last)));
+            let ok = w.exec(out, &COp::Destroyed(1, 5, 0), &[], &[], Some(0));
+            out.label(&format!("d.cmod/destroyed/{}/{}", dname, tag(ok, &w.last)));
+            // the live module in front of it refuses: false, the dead one is not reached
+            let ok = w.exec(out, &COp::CanTransfer(0, 1, 50, 0), &[], &[1], None);
+            out.label(&format!("d.cmod/can_transfer/{}-behind-a-refusal/{}", dname, tag(ok, &w.last)));
+            for h in 0..5 { w.exec_plain(out, &COp::Remove(h, dead, 3)); }
+            let ok = w.exec(out, &COp::CanTransfer(0, 1, 50, 0), &[], &[], None);
+            out.label(&format!("d.cmod/can_transfer/{}-removed-again/{}", dname, tag(ok, &w.last)));
+            w.exec(out, &COp::Transferred(0, 1, 50, 0), &[], &[], Some(0));
+            w.finish(out, &format!("compliance/directed/dead-module/{}", dname));
+        }
         // MAX_MODULES
         {
             let cap = stellar_tokens::rwa::compliance::MAX_MODULES as usize;
@@ -1518,7 +1802,8 @@ mod cmpl {
         while w.items.len() < len {
             let pa = |rng: &mut Rng| rng.below(4) as usize;
             let tk = rng.below(3) as usize;
-            let md = rng.below(nm as u64) as usize;
+            // now and then one of the two modules that can never be called
+            let md = if rng.chance(1, 12) { nm + rng.below(2) as usize } else { rng.below(nm as u64) as usize };
             let h = rng.below(5) as usize;
             let amt = match rng.below(6) { 0 => 0, 1 => -1, 2 => rng.i128_any(), _ => rng.below(1000) as i128 };
             let op = match rng.below(100) {
@@ -1558,7 +1843,10 @@ mod cmpl {
             }
             let mut deny: std::vec::Vec<usize> = vec![];
             for i in 0..nm { if rng.chance(1, 5) { deny.push(i); } }
-            w.exec(out, &op, &auths, &deny, via);
+            let mut fail: std::vec::Vec<usize> = vec![];
+            for i in 0..nm { if rng.chance(1, 10) { fail.push(i); } }
+            w.flavour = 2 + rng.below(3) as u32;
+            w.exec_f(out, &op, &auths, &deny, &fail, via);
         }
         w.finish(out, &format!("compliance/random/{}", idx));
     }
@@ -1572,7 +1860,6 @@ mod cmpl {
 mod idl {
     use super::*;
     use soroban_sdk::{contracttype, Bytes, BytesN};
-    use stellar_tokens::rwa::claim_issuer::ClaimIssuer;
     use stellar_tokens::rwa::identity_claims::{generate_claim_id, Claim};
     use stellar_tokens::rwa::identity_verifier::storage as ivs;
 
@@ -1643,25 +1930,35 @@ mod idl {
         }
     }
 
-    /// a claim issuer: accepts a claim iff the first byte of its data is 1; reports every call
+    /// a claim issuer: accepts a claim iff the first byte of its data is 1; reports every call it accepts.
+    /// (The ClaimIssuer interface, written out so that the mock can also answer a value where the interface
+    /// returns nothing.)  HOW it refuses is its own business, flavour "fl": 0 raises a contract error,
+    /// 1 traps, 2 answers `false`, 3 answers a number - only a plain return (unit) is an acceptance.
     #[contract]
     pub struct Issuer;
 
     #[contractimpl]
-    impl ClaimIssuer for Issuer {
-        fn is_claim_valid(e: &Env, identity: Address, claim_topic: u32, _scheme: u32, _sig_data: Bytes, claim_data: Bytes) {
+    impl Issuer {
+        pub fn is_claim_valid(e: &Env, identity: Address, claim_topic: u32, _scheme: u32, _sig_data: Bytes, claim_data: Bytes) -> Val {
+            if claim_data.get(0) != Some(1) {
+                let fl: u32 = e.storage().instance().get(&symbol_short!("fl")).unwrap_or(0);
+                match fl {
+                    0 => panic_with_error!(e, RWAError::IdentityVerificationFailed),
+                    1 => panic!("claim not valid"),
+                    2 => return false.into_val(e),
+                    _ => return 0u32.into_val(e),
+                }
+            }
             let mut log: Vec<(Address, u32)> = e.storage().instance().get(&symbol_short!("log")).unwrap_or(Vec::new(e));
             log.push_back((identity, claim_topic));
             e.storage().instance().set(&symbol_short!("log"), &log);
-            if claim_data.get(0) != Some(1) {
-                panic_with_error!(e, RWAError::IdentityVerificationFailed)
-            }
+            ().into_val(e)
         }
     }
 
     pub const ACC0: u64 = 0;   // accounts 0..3
     pub const IDN0: u64 = 30;  // identity contracts 30..32
-    pub const ISS0: u64 = 40;  // claim issuers 40..42
+    pub const ISS0: u64 = 40;  // claim issuers 40..42; 43 = a trusted "issuer" address where no contract is deployed
 
     #[derive(Clone, Debug)]
     pub struct ClaimRec { pub k_issuer: usize, pub k_topic: u32, pub c_topic: u32, pub c_issuer: usize, pub valid: bool }
@@ -1705,9 +2002,11 @@ mod idl {
         pub cti: Address,
         pub accounts: std::vec::Vec<Address>,
         pub idents: std::vec::Vec<Address>,
-        pub issuers: std::vec::Vec<Address>,
+        pub issuers: std::vec::Vec<Address>,   // three Issuer contracts, then an address where nothing is deployed
+        pub flavour: u32,                      // how the issuers refuse (see Issuer)
         pub items: std::vec::Vec<std::string::String>,
     }
+    const LIVE_ISSUERS: usize = 3;
 
     impl IEnv {
         pub fn new() -> IEnv { IEnv::with_ledger(16, 6_312_000) }
@@ -1730,8 +2029,9 @@ mod idl {
             });
             let accounts = (0..4).map(|_| Address::generate(&e)).collect();
             let idents = (0..3).map(|_| e.register(Ident, ())).collect();
-            let issuers = (0..3).map(|_| e.register(Issuer, ())).collect();
-            IEnv { e, idv, irs, cti, accounts, idents, issuers, items: vec![] }
+            let mut issuers: std::vec::Vec<Address> = (0..LIVE_ISSUERS).map(|_| e.register(Issuer, ())).collect();
+            issuers.push(Address::generate(&e));
+            IEnv { e, idv, irs, cti, accounts, idents, issuers, flavour: 0, items: vec![] }
         }
 
         fn install(&self, w: &IWorld) {
@@ -1774,8 +2074,11 @@ mod idl {
                     }
                 });
             }
-            for is in &self.issuers {
-                e.as_contract(is, || e.storage().instance().set(&symbol_short!("log"), &Vec::<(Address, u32)>::new(e)));
+            for is in self.issuers.iter().take(LIVE_ISSUERS) {
+                e.as_contract(is, || {
+                    e.storage().instance().set(&symbol_short!("log"), &Vec::<(Address, u32)>::new(e));
+                    e.storage().instance().set(&symbol_short!("fl"), &self.flavour);
+                });
             }
         }
 
@@ -1785,7 +2088,7 @@ mod idl {
         fn read_log(&self, w: &IWorld) -> std::string::String {
             let e = &self.e;
             let mut entries: std::vec::Vec<(u32, usize, usize, std::string::String)> = vec![];
-            for (k, is) in self.issuers.iter().enumerate() {
+            for (k, is) in self.issuers.iter().enumerate().take(LIVE_ISSUERS) {
                 let log: Vec<(Address, u32)> = e.as_contract(is, || e.storage().instance().get(&symbol_short!("log")).unwrap_or(Vec::new(e)));
                 for (j, (idn, t)) in log.iter().enumerate() {
                     let idn_n = self.idents.iter().position(|x| *x == idn).map(|i| IDN0 + i as u64).unwrap_or(999);
@@ -1900,6 +2203,37 @@ mod idl {
         x.recovery(out, &w, 0);
         x.recovery(out, &w, 1);
         x.finish(out, "identity/directed");
+        // HOW an issuer refuses is its own business: a contract error, a trap, an answer `false`, a number -
+        // only a plain return accepts the claim; and a trusted issuer address where nothing is deployed accepts nothing
+        for flavour in 0..4u32 {
+            let fname = ["contract-error", "trap", "answers-false", "answers-a-number"][flavour as usize];
+            let mut x = IEnv::new();
+            x.flavour = flavour;
+            let lab = |out: &mut Out, name: &str, ok: bool| out.label(&format!("d.issuer/{}/{}/{}", name, fname, if ok { "ok" } else { "fail" }));
+            let r = x.verify(out, &w, 0); lab(out, "all-claims-accepted", r);
+            for (pos, t) in [("first", 1u32), ("middle", 2), ("last", 5)] {
+                let mut w2 = w.clone();
+                for c in w2.claims[0].1.iter_mut() { if c.k_topic == t { c.valid = false; } }
+                let r = x.verify(out, &w2, 0); lab(out, &format!("only-claim-of-the-{}-topic-refused", pos), r);
+            }
+            let mut w2 = w.clone();
+            w2.claims[0].1 = vec![ClaimRec { valid: false, ..good(0, 1) }, good(1, 1), good(2, 2), ClaimRec { valid: false, ..good(1, 5) }, good(0, 5)];
+            let r = x.verify(out, &w2, 0); lab(out, "first-issuer-refuses-second-accepts", r);
+            w2.claims[0].1[4].valid = false;
+            let r = x.verify(out, &w2, 0); lab(out, "every-issuer-of-the-last-topic-refuses", r);
+            for c in w2.claims[0].1.iter_mut() { c.valid = false; }
+            let r = x.verify(out, &w2, 0); lab(out, "every-claim-refused", r);
+            // issuer 43: trusted, but no contract there - its "verdict" is never an acceptance
+            let mut w3 = w.clone();
+            w3.topics = vec![(1, vec![3, 0]), (2, vec![2, 3]), (5, vec![3])];
+            w3.claims[0].1 = vec![ClaimRec { valid: false, ..good(3, 1) }, good(0, 1), good(2, 2), ClaimRec { valid: false, ..good(3, 5) }];
+            let r = x.verify(out, &w3, 0); lab(out, "last-topic-only-through-an-undeployed-issuer", r);
+            w3.topics = vec![(1, vec![3, 0]), (2, vec![2, 3])];
+            let r = x.verify(out, &w3, 0); lab(out, "undeployed-issuer-first-a-live-one-accepts", r);
+            w3.topics = vec![(1, vec![3]), (2, vec![2, 3])];
+            let r = x.verify(out, &w3, 0); lab(out, "first-topic-only-through-an-undeployed-issuer", r);
+            x.finish(out, &format!("identity/directed/issuer-refusal/{}", fname));
+        }
         // the verifier's links to its registries must survive a gap of any length
         for (min_temp, max_ttl) in [(1u32, 6_312_000u32), (16, 1_000_000), (16, 5000)] {
             let mut x = IEnv::with_ledger(min_temp, max_ttl);
@@ -1960,6 +2294,7 @@ mod idl {
                 if !cs.is_empty() { w.claims.push((idn, cs)); }
             }
             for a in 0..4usize { if rng.chance(1, 4) { w.recovered.push((a, rng.below(4) as usize)); } }
+            x.flavour = rng.below(4) as u32;
             if rng.chance(1, 8) { x.recovery(out, &w, rng.below(4) as usize); } else { x.verify(out, &w, rng.below(4) as usize); }
         }
         x.finish(out, &format!("identity/random/{}", idx));
@@ -1977,7 +2312,6 @@ mod stack {
     use super::cmpl::{COp, CWorld, Who, MOD0, TOK0};
     use super::idl::{ClaimRec, IWorld, Idv, ACC0, IDN0, ISS0};
     use soroban_sdk::{Bytes, BytesN};
-    use stellar_tokens::rwa::claim_issuer::ClaimIssuer;
     use stellar_tokens::rwa::claim_topics_and_issuers::storage as cti;
     use stellar_tokens::rwa::identity_claims::{self as idc, Claim};
     use stellar_tokens::rwa::identity_registry_storage::{
@@ -2030,16 +2364,23 @@ mod stack {
     #[contract]
     pub struct IssuerC;
     #[contractimpl]
-    impl ClaimIssuer for IssuerC {
-        fn is_claim_valid(e: &Env, identity: Address, claim_topic: u32, _scheme: u32, _sig_data: Bytes, _claim_data: Bytes) {
+    impl IssuerC {
+        /// the ClaimIssuer interface written out (so that a refusal can also be an answered value): flavour "fl"
+        /// 0 contract error, 1 trap, 2 answers `false`, 3 answers a number; only a plain return accepts
+        pub fn is_claim_valid(e: &Env, identity: Address, claim_topic: u32, _scheme: u32, _sig_data: Bytes, _claim_data: Bytes) -> Val {
             let rev: Map<(Address, u32), bool> = e.storage().instance().get(&symbol_short!("rev")).unwrap_or(Map::new(e));
             if rev.get((identity, claim_topic)).unwrap_or(false) {
-                panic_with_error!(e, RWAError::IdentityVerificationFailed)
+                let fl: u32 = e.storage().instance().get(&symbol_short!("fl")).unwrap_or(0);
+                match fl {
+                    0 => panic_with_error!(e, RWAError::IdentityVerificationFailed),
+                    1 => panic!("claim revoked"),
+                    2 => return false.into_val(e),
+                    _ => return 0u32.into_val(e),
+                }
             }
+            ().into_val(e)
         }
-    }
-    #[contractimpl]
-    impl IssuerC {
+        pub fn set_flavour(e: &Env, fl: u32) { e.storage().instance().set(&symbol_short!("fl"), &fl); }
         pub fn set_revoked(e: &Env, identity: Address, topic: u32, revoked: bool) {
             let mut rev: Map<(Address, u32), bool> = e.storage().instance().get(&symbol_short!("rev")).unwrap_or(Map::new(e));
             rev.set((identity, topic), revoked);
@@ -2074,6 +2415,7 @@ mod stack {
         pub fn new(min_temp: u32, max_ttl: u32) -> SWorld {
             let mut w = World::new(4, min_temp, max_ttl);
             w.real = true;
+            w.push_account();        // party 4: the account-type address, destination of muxed transfers
             let e = w.e.clone();
             let c = CWorld::in_env(&e, w.addrs.clone(), w.tok.clone(), 3);
             let idv = e.register(Idv, ());
@@ -2083,7 +2425,7 @@ mod stack {
                 ivs::set_claim_topics_and_issuers(&e, &cti);
                 ivs::set_identity_registry_storage(&e, &irs_);
             });
-            let idents = (0..3).map(|_| e.register(IdentC, ())).collect();
+            let idents = (0..4).map(|_| e.register(IdentC, ())).collect();
             let issuers = (0..2).map(|_| e.register(IssuerC, ())).collect();
             // the token is pointed at the real collaborators by its own set_compliance / set_identity_verifier calls
             w.cmps = vec![c.cmp.clone()];
@@ -2145,7 +2487,8 @@ mod stack {
                         let ci = self.issuers.iter().position(|x| *x == claim.issuer).unwrap_or(99);
                         // the issuer's current answer for this claim
                         let args: Vec<Val> = (idn.clone(), claim.topic, claim.scheme, claim.signature.clone(), claim.data.clone()).into_val(&e);
-                        let valid = ci < self.issuers.len() && self.try_call(&self.issuers[ci], "is_claim_valid", args).is_some();
+                        // only a plain return (unit) is an acceptance
+                        let valid = ci < self.issuers.len() && self.try_call(&self.issuers[ci], "is_claim_valid", args).map(|v| v.is_void()).unwrap_or(false);
                         cs.push(ClaimRec { k_issuer: ki, k_topic: kt, c_topic: claim.topic, c_issuer: ci, valid });
                     }
                 }
@@ -2155,6 +2498,13 @@ mod stack {
             self.stale = false;
         }
 
+        /// how the claim issuers refuse from now on
+        pub fn issuer_flavour(&mut self, fl: u32) {
+            let e = self.w.e.clone();
+            for is in &self.issuers { let _ = self.try_call(is, "set_flavour", (fl,).into_val(&e)); }
+            self.stale = true;
+        }
+
         fn sobs(&mut self) -> std::string::String {
             let t = self.w.observe();
             let c = self.c.observe();
@@ -2162,28 +2512,43 @@ mod stack {
         }
 
         /// a call of the token
-        pub fn tok(&mut self, out: &mut Out, op: &Op, auths: &[usize], deny: &[usize]) -> bool {
+        pub fn tok(&mut self, out: &mut Out, op: &Op, auths: &[usize], deny: &[usize]) -> bool { self.tokf(out, op, auths, deny, &[]) }
+        /// ... during which the compliance modules `fail` fail (in the flavour `self.c.flavour`)
+        pub fn tokf(&mut self, out: &mut Out, op: &Op, auths: &[usize], deny: &[usize], fail: &[usize]) -> bool {
             if self.stale { self.read_world(); }
-            self.c.prepare(deny);
+            self.c.prepare(deny, fail);
             let (ok, outcome) = self.w.run_op(op, auths);
             if let Op::Advance(_) = op { self.stale = true; }
             let obs = self.sobs();
             let au: std::vec::Vec<_> = auths.iter().map(|&i| n(i as u64)).collect();
             let dn: std::vec::Vec<_> = deny.iter().map(|&i| n(MOD0 + i as u64)).collect();
-            let call = format!("(STok ({}) {} {} {})", op.coq(), list(&au), list(&dn), self.world.coq());
+            let failing = self.c.failing(fail);
+            let fl: std::vec::Vec<_> = failing.iter().map(|&i| n(MOD0 + i as u64)).collect();
+            let call = format!("(STokF ({}) {} {} {} {})", op.coq(), list(&au), list(&dn), list(&fl), self.world.coq());
+            // (labels only) the hook lists as they were before the call: a successful call does not change them
+            let hit = |hooks: &[usize], who: &[usize]| hooks.iter().any(|&h| who.iter().any(|d| self.c.mods[h].contains(d)));
             let gate = match *op {
-                Op::Transfer(f, t, _) | Op::TransferFrom(_, f, t, _) => {
+                Op::Transfer(f, t, _) | Op::TransferMux(f, t, _, _) | Op::TransferFrom(_, f, t, _) => {
                     if !self.world.verified(f) { "/sender-unverified" } else if !self.world.verified(t) { "/receiver-unverified" }
-                    else if deny.iter().any(|d| self.c.mods[3].contains(d)) { "/module-refuses" } else { "" }
+                    else if hit(&[3], deny) { "/module-refuses" }
+                    else if hit(&[3], &failing) { "/asked-module-fails" }
+                    else if hit(&[0], &failing) { "/notified-module-fails" } else { "" }
                 }
+                Op::Mint(..) => if hit(&[4], &failing) { "/asked-module-fails" } else if hit(&[1], &failing) { "/notified-module-fails" } else { "" },
+                Op::Burn(..) => if hit(&[2], &failing) { "/notified-module-fails" } else { "" },
+                Op::Forced(..) => if hit(&[0], &failing) { "/notified-module-fails" } else { "" },
                 _ => "",
             };
-            out.case(&format!("s.{}/{}{}", op.kind(), if ok { "ok" } else { "fail" }, gate), &call);
-            self.items.push(format!("SI {} {} {}", call, outcome, obs));
+            let kind = if op.mux().is_some() { "transfer-muxed" } else { op.kind() };
+            out.case(&format!("s.{}/{}{}", kind, if ok { "ok" } else { "fail" }, gate), &call);
+            match op.mux() {
+                None => self.items.push(format!("SI {} {} {}", call, outcome, obs)),
+                Some(id) => self.items.push(format!("SIMux {} {} {} {}", z(id as i128), call, outcome, obs)),
+            }
             ok
         }
         pub fn tok_plain(&mut self, out: &mut Out, op: &Op) -> bool {
-            let au: std::vec::Vec<usize> = op.signer().into_iter().collect();
+            let au: std::vec::Vec<usize> = op.signer().into_iter().filter(|&i| i < self.w.nsign).collect();
             self.tok(out, op, &au, &[])
         }
 
@@ -2223,7 +2588,7 @@ mod stack {
                 Edit::Revoke(i, k, t, rv) => self.try_call(&self.issuers[*i], "set_revoked", (self.idents[*k].clone(), *t, *rv).into_val(&e)),
             };
             self.stale = true;
-            self.c.prepare(&[]);
+            self.c.prepare(&[], &[]);
             let obs = self.sobs();
             let kind = format!("{:?}", ed);
             let kind = kind.split('(').next().unwrap_or("edit").to_string();
@@ -2244,7 +2609,8 @@ mod stack {
 
         /// a working stack: collaborators linked, modules 1,0 on CanTransfer / 0,2 on Transferred / 2 on CanCreate /
         /// 1 on Created / 0 on Destroyed, token bound; topics 1 and 2 required, issuer 0 trusted for 1 and 2,
-        /// issuer 1 for 2; accounts 0,1,2 have identities 0,1,2 with claims; account 3 (the operator) has none
+        /// issuer 1 for 2; accounts 0,1,2 have identities 0,1,2 with claims; account 3 (the operator) has none;
+        /// party 4 (account-type address, never signs) has identity 3 with claims
         pub fn standard(out: &mut Out, min_temp: u32, max_ttl: u32) -> SWorld {
             let adm = 3usize;
             let mut s = SWorld::new(min_temp, max_ttl);
@@ -2262,6 +2628,10 @@ mod stack {
                 s.edit(out, &Edit::AddClaim(a, 1, 0));
                 s.edit(out, &Edit::AddClaim(a, 2, if a == 1 { 1 } else { 0 }));
             }
+            // party 4 (the account-type address) has identity 3 with claims as well
+            s.edit(out, &Edit::AddIdentity(4, 3));
+            s.edit(out, &Edit::AddClaim(3, 1, 0));
+            s.edit(out, &Edit::AddClaim(3, 2, 1));
             s
         }
     }
@@ -2346,6 +2716,108 @@ mod stack {
             s.tok_plain(out, &Op::Transfer(0, 1, 10));
             s.finish(out, "stack/directed/compliance-gate");
         }
+        // FAILING compliance modules end to end: a module that fails when asked is no approval, a module that
+        // fails when notified blocks the movement (nothing may be left behind), in every flavour
+        for flavour in [2u32, 3, 4] {
+            let fname = ["", "", "contract-error", "trap", "wrong-type"][flavour as usize];
+            let mut s = SWorld::standard(out, 1, MAXTTL);
+            s.c.flavour = flavour;
+            let lab = |out: &mut Out, name: &str, ok: bool| out.label(&format!("d.stack/{}/{}/{}", name, fname, if ok { "ok" } else { "fail" }));
+            s.tok_plain(out, &Op::Mint(0, 100, adm));
+            s.tok_plain(out, &Op::Approve(0, 2, 50, 100_000));
+            // modules 1,0 on CanTransfer / 0,2 on Transferred / 2 on CanCreate / 1 on Created / 0 on Destroyed
+            let r = s.tokf(out, &Op::Transfer(0, 1, 10), &[0], &[], &[1]); lab(out, "transfer/first-asked-module-fails", r);
+            let r = s.tokf(out, &Op::Transfer(0, 1, 10), &[0], &[], &[0]); lab(out, "transfer/asked-and-notified-module-fails", r);
+            let r = s.tokf(out, &Op::Transfer(0, 1, 10), &[0], &[], &[2]); lab(out, "transfer/notified-module-fails", r);
+            let r = s.tokf(out, &Op::TransferMux(0, 4, 7, 10), &[0], &[], &[1]); lab(out, "transfer-muxed/asked-module-fails", r);
+            let r = s.tokf(out, &Op::TransferMux(0, 4, 7, 10), &[0], &[], &[2]); lab(out, "transfer-muxed/notified-module-fails", r);
+            let r = s.tokf(out, &Op::TransferFrom(2, 0, 1, 10), &[2], &[], &[1]); lab(out, "transfer_from/asked-module-fails", r);
+            let r = s.tokf(out, &Op::TransferFrom(2, 0, 1, 10), &[2], &[], &[2]); lab(out, "transfer_from/notified-module-fails", r);
+            let r = s.tokf(out, &Op::Transfer(0, 1, 10), &[0], &[1], &[0]); lab(out, "transfer/refused-before-the-failing-module", r);
+            let r = s.tokf(out, &Op::Mint(1, 10, adm), &[adm], &[], &[2]); lab(out, "mint/asked-module-fails", r);
+            let r = s.tokf(out, &Op::Mint(1, 10, adm), &[adm], &[], &[1]); lab(out, "mint/notified-module-fails", r);
+            let r = s.tokf(out, &Op::Mint(1, 10, adm), &[adm], &[], &[0]); lab(out, "mint/unrelated-module-fails", r);
+            let r = s.tokf(out, &Op::Burn(0, 5, adm), &[adm], &[], &[0]); lab(out, "burn/notified-module-fails", r);
+            let r = s.tokf(out, &Op::Burn(0, 5, adm), &[adm], &[], &[1, 2]); lab(out, "burn/unrelated-modules-fail", r);
+            let r = s.tokf(out, &Op::Forced(0, 1, 5, adm), &[adm], &[], &[2]); lab(out, "forced_transfer/notified-module-fails", r);
+            let r = s.tokf(out, &Op::Forced(0, 1, 5, adm), &[adm], &[], &[1]); lab(out, "forced_transfer/unrelated-module-fails", r);
+            s.tok_plain(out, &Op::Freeze(0, 1, adm));
+            let r = s.tokf(out, &Op::Freeze(0, 1, adm), &[adm], &[], &[0, 1, 2]); lab(out, "freeze/nobody-is-called", r);
+            // everybody well again: the very same movements go through
+            let r = s.tok_plain(out, &Op::Transfer(0, 1, 10)); lab(out, "transfer/modules-well-again", r);
+            let r = s.tok_plain(out, &Op::TransferMux(0, 4, u64::MAX, 10)); lab(out, "transfer-muxed/modules-well-again", r);
+            let r = s.tok_plain(out, &Op::TransferFrom(2, 0, 1, 10)); lab(out, "transfer_from/modules-well-again", r);
+            s.finish(out, &format!("stack/directed/failing-modules/{}", fname));
+        }
+        // a registered module that can never be called (nothing deployed at index 3 / not a module at index 4)
+        for (dead, dname) in [(3usize, "not-deployed"), (4, "not-a-module")] {
+            let mut s = SWorld::standard(out, 16, 1_000_000);
+            let lab = |out: &mut Out, name: &str, ok: bool| out.label(&format!("d.stack/{}/{}/{}", name, dname, if ok { "ok" } else { "fail" }));
+            s.tok_plain(out, &Op::Mint(0, 100, adm));
+            let r = s.tok_plain(out, &Op::Transfer(0, 1, 10)); lab(out, "transfer/before-registration", r);
+            s.cmp(out, &COp::Add(3, dead, adm), true);              // CanTransfer
+            let r = s.tok_plain(out, &Op::Transfer(0, 1, 10)); lab(out, "transfer/registered-for-can_transfer", r);
+            let r = s.tok_plain(out, &Op::TransferMux(0, 4, 1, 10)); lab(out, "transfer-muxed/registered-for-can_transfer", r);
+            let r = s.tok_plain(out, &Op::Forced(0, 1, 10, adm)); lab(out, "forced_transfer/registered-for-can_transfer", r);
+            s.cmp(out, &COp::Remove(3, dead, adm), true);
+            s.cmp(out, &COp::Add(0, dead, adm), true);              // Transferred
+            let r = s.tok_plain(out, &Op::Transfer(0, 1, 10)); lab(out, "transfer/registered-for-transferred", r);
+            let r = s.tok_plain(out, &Op::Forced(0, 1, 10, adm)); lab(out, "forced_transfer/registered-for-transferred", r);
+            let r = s.tok_plain(out, &Op::Mint(0, 10, adm)); lab(out, "mint/registered-for-transferred", r);
+            s.cmp(out, &COp::Remove(0, dead, adm), true);
+            s.cmp(out, &COp::Add(4, dead, adm), true);              // CanCreate
+            let r = s.tok_plain(out, &Op::Mint(0, 10, adm)); lab(out, "mint/registered-for-can_create", r);
+            s.cmp(out, &COp::Remove(4, dead, adm), true);
+            s.cmp(out, &COp::Add(2, dead, adm), true);              // Destroyed
+            let r = s.tok_plain(out, &Op::Burn(0, 10, adm)); lab(out, "burn/registered-for-destroyed", r);
+            s.cmp(out, &COp::Remove(2, dead, adm), true);
+            let r = s.tok_plain(out, &Op::Transfer(0, 1, 10)); lab(out, "transfer/removed-again", r);
+            s.finish(out, &format!("stack/directed/dead-module/{}", dname));
+        }
+        // MUXED destinations end to end: the receiver's identity is that of the address part; every module is
+        // asked / notified exactly once with the address part
+        {
+            let mut s = SWorld::standard(out, 1, MAXTTL);
+            let lab = |out: &mut Out, name: &str, ok: bool| out.label(&format!("d.stack/mux/{}/{}", name, if ok { "ok" } else { "fail" }));
+            s.tok_plain(out, &Op::Mint(0, 100, adm));
+            for id in MUX_IDS { let r = s.tok_plain(out, &Op::TransferMux(0, 4, id, 3)); if id == 0 || id == u64::MAX { lab(out, &format!("id-{}", if id == 0 { "0" } else { "max" }), r); } }
+            let r = s.tok_plain(out, &Op::Transfer(0, 4, 3)); lab(out, "account-destination-without-id", r);
+            let r = s.tok(out, &Op::TransferMux(0, 4, 7, 3), &[0], &[0]); lab(out, "module-refuses", r);
+            s.edit(out, &Edit::Revoke(1, 3, 2, true));             // the receiver's claim is revoked
+            let r = s.tok_plain(out, &Op::TransferMux(0, 4, 7, 3)); lab(out, "receiver-unverified", r);
+            let r = s.tok_plain(out, &Op::Transfer(0, 4, 3)); lab(out, "receiver-unverified-without-id", r);
+            s.edit(out, &Edit::Revoke(1, 3, 2, false));
+            s.edit(out, &Edit::Revoke(0, 0, 1, true));             // the sender's claim is revoked
+            let r = s.tok_plain(out, &Op::TransferMux(0, 4, 7, 3)); lab(out, "sender-unverified", r);
+            s.edit(out, &Edit::Revoke(0, 0, 1, false));
+            s.tok_plain(out, &Op::SetFrozen(4, true, adm));
+            let r = s.tok_plain(out, &Op::TransferMux(0, 4, 7, 3)); lab(out, "receiver-frozen", r);
+            s.tok_plain(out, &Op::SetFrozen(4, false, adm));
+            s.tok_plain(out, &Op::Pause(adm));
+            let r = s.tok_plain(out, &Op::TransferMux(0, 4, 7, 3)); lab(out, "paused", r);
+            s.tok_plain(out, &Op::Unpause(adm));
+            s.cmp(out, &COp::Unbind(0, adm), true);
+            let r = s.tok_plain(out, &Op::TransferMux(0, 4, 7, 3)); lab(out, "token-unbound", r);
+            s.cmp(out, &COp::Bind(0, adm), true);
+            let r = s.tok_plain(out, &Op::TransferMux(0, 4, 7, 3)); lab(out, "all-open-again", r);
+            s.finish(out, "stack/directed/muxed-destination");
+        }
+        // a claim issuer that refuses by answering a value / trapping / raising an error: the holder is unverified all the same
+        {
+            let mut s = SWorld::standard(out, 1, MAXTTL);
+            s.tok_plain(out, &Op::Mint(0, 100, adm));
+            s.edit(out, &Edit::Revoke(0, 0, 1, true));
+            for fl in 0..4u32 {
+                let fname = ["contract-error", "trap", "answers-false", "answers-a-number"][fl as usize];
+                s.issuer_flavour(fl);
+                let r = s.tok_plain(out, &Op::Transfer(0, 1, 10)); out.label(&format!("d.stack/issuer-refuses/{}/sender/{}", fname, if r { "ok" } else { "fail" }));
+                let r = s.tok_plain(out, &Op::Transfer(1, 0, 0)); out.label(&format!("d.stack/issuer-refuses/{}/receiver/{}", fname, if r { "ok" } else { "fail" }));
+                let r = s.tok_plain(out, &Op::Mint(0, 1, adm)); out.label(&format!("d.stack/issuer-refuses/{}/mint-recipient/{}", fname, if r { "ok" } else { "fail" }));
+            }
+            s.edit(out, &Edit::Revoke(0, 0, 1, false));
+            let r = s.tok_plain(out, &Op::Transfer(0, 1, 10)); out.label(&format!("d.stack/issuer-refuses/accepts-again/{}", if r { "ok" } else { "fail" }));
+            s.finish(out, "stack/directed/issuer-refusal-flavours");
+        }
         // recovery through the registry, freezes, pause, long gaps
         for (min_temp, max_ttl, gap) in [(1u32, MAXTTL, 600_000u32), (16, 5000, 4_000_000)] {
             let mut s = SWorld::standard(out, min_temp, max_ttl);
@@ -2382,17 +2854,26 @@ mod stack {
         let start = s.items.len();
         while s.items.len() < start + len {
             let ad = |rng: &mut Rng| rng.below(4) as usize;
-            let (x, y, sp) = (ad(rng), ad(rng), ad(rng));
+            let (x, sp) = (ad(rng), ad(rng));
+            let y = rng.below(5) as usize;                          // party 4 = the account-type address
             let x = if rng.chance(2, 3) { (0..4).filter(|&i| s.w.m.bal[i] > 0).nth(rng.below(2) as usize).unwrap_or(x) } else { x };
             let mut deny: std::vec::Vec<usize> = vec![];
             for i in 0..3 { if rng.chance(1, 10) { deny.push(i); } }
+            let mut fail: std::vec::Vec<usize> = vec![];
+            for i in 0..3 { if rng.chance(1, 14) { fail.push(i); } }
+            s.c.flavour = 2 + rng.below(3) as u32;
+            if rng.chance(1, 12) { s.issuer_flavour(rng.below(4) as u32); }
             match rng.below(100) {
-                0..=21 => { let a = pick_amount(rng, &[s.w.free(x), s.w.m.bal[x]]); let op = Op::Transfer(x, y, a); s.tok(out, &op, &[x], &deny); }
-                22..=33 => { let a = pick_amount(rng, &[s.w.free(x), s.w.allowance(x, sp)]); let op = Op::TransferFrom(sp, x, y, a); s.tok(out, &op, &[sp], &deny); }
+                0..=21 => {
+                    let a = pick_amount(rng, &[s.w.free(x), s.w.m.bal[x]]);
+                    let op = if y == 4 && rng.chance(2, 3) { Op::TransferMux(x, y, if rng.chance(1, 2) { *rng.pick(&MUX_IDS) } else { rng.next_u64() }, a) } else { Op::Transfer(x, y, a) };
+                    s.tokf(out, &op, &[x], &deny, &fail);
+                }
+                22..=33 => { let a = pick_amount(rng, &[s.w.free(x), s.w.allowance(x, sp)]); let op = Op::TransferFrom(sp, x, y, a); s.tokf(out, &op, &[sp], &deny, &fail); }
                 34..=39 => { let l = s.w.m.now + 1 + rng.below(50_000) as u32; let a = pick_amount(rng, &[s.w.m.bal[x], 50]); s.tok_plain(out, &Op::Approve(x, sp, a, l.min(s.w.m.now + max_ttl - 1))); }
-                40..=45 => { let a = pick_amount(rng, &[100]); let op = Op::Mint(y, a, adm); s.tok(out, &op, &[adm], &deny); }
-                46..=48 => { let a = pick_amount(rng, &[s.w.m.bal[x]]); s.tok_plain(out, &Op::Burn(x, a, adm)); }
-                49..=52 => { let a = pick_amount(rng, &[s.w.free(x), s.w.m.bal[x]]); s.tok_plain(out, &Op::Forced(x, y, a, adm)); }
+                40..=45 => { let a = pick_amount(rng, &[100]); let op = Op::Mint(y, a, adm); s.tokf(out, &op, &[adm], &deny, &fail); }
+                46..=48 => { let a = pick_amount(rng, &[s.w.m.bal[x]]); s.tokf(out, &Op::Burn(x, a, adm), &[adm], &[], &fail); }
+                49..=52 => { let a = pick_amount(rng, &[s.w.free(x), s.w.m.bal[x]]); s.tokf(out, &Op::Forced(x, y, a, adm), &[adm], &[], &fail); }
                 53..=55 => { s.tok_plain(out, &Op::Recover(x, y, adm)); }
                 56..=58 => { s.tok_plain(out, &Op::SetFrozen(y, rng.chance(1, 2), adm)); }
                 59..=61 => { let a = pick_amount(rng, &[s.w.free(x)]); s.tok_plain(out, &Op::Freeze(x, a, adm)); }
@@ -2400,21 +2881,21 @@ mod stack {
                 64 => { s.tok_plain(out, &Op::Pause(adm)); }
                 65 => { s.tok_plain(out, &Op::Unpause(adm)); }
                 66..=67 => { let g = long_gap(rng); s.tok_plain(out, &Op::Advance(g)); }
-                68..=72 => { s.cmp(out, &COp::Add(rng.below(5) as usize, rng.below(3) as usize, adm), !rng.chance(1, 8)); }
-                73..=76 => { s.cmp(out, &COp::Remove(rng.below(5) as usize, rng.below(3) as usize, adm), !rng.chance(1, 8)); }
+                68..=72 => { let md = if rng.chance(1, 10) { 3 + rng.below(2) as usize } else { rng.below(3) as usize }; s.cmp(out, &COp::Add(rng.below(5) as usize, md, adm), !rng.chance(1, 8)); }
+                73..=76 => { let md = if rng.chance(1, 5) { 3 + rng.below(2) as usize } else { rng.below(3) as usize }; s.cmp(out, &COp::Remove(rng.below(5) as usize, md, adm), !rng.chance(1, 8)); }
                 77 => { s.cmp(out, &COp::Unbind(0, adm), true); }
                 78..=79 => { s.cmp(out, &COp::Bind(0, adm), true); }
                 _ => {
-                    let (k, i, t) = (rng.below(3) as usize, rng.below(2) as usize, *rng.pick(&TOPICS));
+                    let (k, i, t) = (rng.below(4) as usize, rng.below(2) as usize, *rng.pick(&TOPICS));
                     let ed = match rng.below(14) {
                         0 => Edit::AddTopic(t),
                         1 => Edit::RemoveTopic(t),
                         2 => Edit::AddIssuer(i, TOPICS.iter().cloned().filter(|_| rng.chance(2, 3)).collect()),
                         3 => Edit::RemoveIssuer(i),
                         4 => Edit::UpdateIssuer(i, TOPICS.iter().cloned().filter(|_| rng.chance(2, 3)).collect()),
-                        5 => Edit::AddIdentity(ad(rng), k),
-                        6 => Edit::RemoveIdentity(ad(rng)),
-                        7 => Edit::ModifyIdentity(ad(rng), k),
+                        5 => Edit::AddIdentity(rng.below(5) as usize, k),
+                        6 => Edit::RemoveIdentity(rng.below(5) as usize),
+                        7 => Edit::ModifyIdentity(rng.below(5) as usize, k),
                         8 => Edit::RecoverIdentity(x, y),
                         9 | 10 => Edit::AddClaim(k, t, i),
                         11 => Edit::RemoveClaim(k, t, i),
@@ -2441,8 +2922,12 @@ fn main() {
     // the 2^7 gate vectors through both entry points
     let reps = if thorough { 4 } else { 1 };
     for _ in 0..reps {
-        for via in [false, true] {
-            for bits in 0..128u32 { gate_trace(&mut out, &mut rng, via, bits); }
+        for mode in [0u32, 1] {
+            for bits in 0..128u32 { gate_trace(&mut out, &mut rng, mode, bits); }
+        }
+        // the muxed entry path: all open, every single closed gate, every pair, all closed (thorough: the whole vector)
+        for bits in 0..128u32 {
+            if thorough || bits.count_ones() <= 2 || bits == 127 { gate_trace(&mut out, &mut rng, 2, bits); }
         }
     }
     // VERIF_DIRECTED_ONLY=1 (self-check of the coverage gate): no random stream at all
